@@ -1,11 +1,26 @@
 #!/venv/bin/python
 import json, sys
 pid = sys.argv[1]
+round2 = len(sys.argv) > 2 and sys.argv[2] == '2'
 for l in open('/verif/properties.jsonl'):
     p = json.loads(l)
     if p['id'] == pid:
         break
 wt = f'/tmp/wt/{pid}'
+extra = ''
+if round2:
+    import glob, os
+    prev = []
+    for d in sorted(glob.glob(f'/verif/seeded/{pid}-*')):
+        try:
+            prev.append('  - ' + (json.load(open(os.path.join(d, 'meta.json'))).get('summary') or '')[:220])
+        except Exception:
+            pass
+    extra = ("ADDITIONAL REQUIREMENTS FOR THIS ROUND: an earlier round already produced the changes summarised below; do NOT repeat them or close variants of them "
+             "(pick other functions / other clauses of the property / other mechanisms):\n" + '\n'.join(prev) + "\nAll THREE changes of this round should need a rather specific trigger "
+             "(particular sizes or alignments, particular option values such as options.lsb0 / options.bytealigned / options.mxfp_overflow, a particular order of several calls, particular "
+             "class or dtype combinations, values at numeric limits, rarely used keyword arguments or input types) - none of them should be exposed by the most ordinary use of the feature. "
+             "Write the files of this round as seed_k.diff / demo_k.py / meta_k.json with k = 4, 5, 6.\n\n")
 print(f"""You are helping to evaluate a verification effort for the open-source Python library `bitstring` (scott-griffiths/bitstring, a pure-Python bit-level binary data library built on the `bitarray` C extension). Your job is to act as a realistic "bug seeder".
 
 You have your own scratch git worktree of the library at {wt} (a detached checkout). Work ONLY inside {wt} (never touch /repo or /verif, and do not read anything under /verif). Python is /venv/bin/python. When you run things from inside {wt} (e.g. `cd {wt} && /venv/bin/python -m pytest -q -p no:cacheprovider --timeout=900`, or `cd {wt} && /venv/bin/python demo.py`) the worktree's own `bitstring` package is the one imported (check `bitstring.__file__` starts with {wt}). The existing test suite is in {wt}/tests (836 tests, takes ~25 s).
@@ -25,4 +40,4 @@ For each change k in 1,2,3 write these files into {wt}/seeded/ (create the direc
 
 Procedure for each change: start from a clean tree (`git -C {wt} checkout -- bitstring`), make the edit, run the full test suite and confirm 836 passed, run your demo and confirm it FAILS, save `git -C {wt} diff -- bitstring > seeded/seed_k.diff`, then revert (`git -C {wt} checkout -- bitstring`) and confirm the demo PASSES on the clean tree. If the test suite fails with your change, pick a different change. Leave the worktree clean (only the seeded/ directory added) when you finish.
 
-Finally reply with a short summary: for each k, what you changed, what triggers it, and confirmation of the three verifications (tests pass with change, demo fails with change, demo passes without).""")
+{extra}Finally reply with a short summary: for each k, what you changed, what triggers it, and confirmation of the three verifications (tests pass with change, demo fails with change, demo passes without).""")
